@@ -1220,6 +1220,14 @@ class BytecodeInterpreter(Interpreter):
             compiler = BytecodeCompiler(func.ast, func.env)
             fn = compiler.compile()
             self.func_cache[func.ast] = fn
+        # A captured list lives in the compiled function's namespace, which is
+        # cached: a store into it (`xs[0] = ...`) would otherwise survive the
+        # call and change what the next one computes.  Each call starts from the
+        # captured value again.
+        for var in func.ast.free_vars:
+            name = str(var)
+            if isinstance(fn.__globals__.get(name), list | tuple):
+                fn.__globals__[name] = to_value(func.env[name])
         # compute the context to use during evaluation
         ctx = self._func_ctx(func.ast, ctx)
         if convert:
